@@ -2,7 +2,6 @@ package rules
 
 import (
 	"go/token"
-	"strings"
 
 	"golang.org/x/tools/go/ssa"
 
@@ -194,37 +193,39 @@ func checkAggregateEarlyReturns(c *Ctx, res *report.Result, rule string) {
 				continue
 			}
 			n++
-			// the innermost guard of this return
-			var gs []flow.Guard
-			if len(b.Preds) == 1 {
-				gs = flow.NormGuards(flow.EdgeGuards(b.Preds[0], b))
-			}
-			if len(gs) == 0 {
-				res.Viol(rule, "AggregateUpTo: an empty result is returned only when nothing is covered", instrPos(c.Prog, ret), "unconditional empty return")
-				continue
-			}
-			g := gs[len(gs)-1]
-			okG := false
-			desc := flow.Describe(g.Cond)
-			if bo, isB := g.Cond.(*ssa.BinOp); isB {
-				z, isZ := flow.ConstInt(bo.Y)
-				switch {
-				case ringFieldLoad(bo.X, "size") && isZ && z == 0:
-					okG = (bo.Op == token.EQL && g.Side) || (bo.Op == token.NEQ && !g.Side) || (bo.Op == token.LEQ && g.Side) || (bo.Op == token.GTR && !g.Side)
-				case ringFieldLoad(bo.Y, "startProxyID"):
-					if _, isP := bo.X.(*ssa.Parameter); isP {
-						okG = (bo.Op == token.LSS && g.Side) || (bo.Op == token.GEQ && !g.Side)
-					}
-				case isZ && z == 0 && strings.Contains(desc, "startProxyID"):
-					// count64 = watermark - startProxyID + 1 <= 0
-					okG = ((bo.Op == token.LEQ || bo.Op == token.LSS) && g.Side) || ((bo.Op == token.GTR || bo.Op == token.GEQ) && !g.Side)
-				case isZ && z == 0:
-					if v, isBin := bo.X.(*ssa.BinOp); isBin && v.Op == token.ADD {
-						okG = ((bo.Op == token.LEQ || bo.Op == token.LSS) && g.Side) || ((bo.Op == token.GTR || bo.Op == token.GEQ) && !g.Side)
+			// every edge into the returning block must be one of the accepted tests, on its accepting side
+			okG := len(b.Preds) > 0
+			desc := ""
+			side := true
+			for _, pred := range b.Preds {
+				gs := flow.NormGuards(flow.EdgeGuards(pred, b))
+				if len(gs) == 0 {
+					okG, desc = false, "an unconditional edge"
+					continue
+				}
+				g := gs[len(gs)-1]
+				okE := false
+				d := flow.Describe(g.Cond)
+				if bo, isB := g.Cond.(*ssa.BinOp); isB {
+					z, isZ := flow.ConstInt(bo.Y)
+					switch {
+					case ringFieldLoad(bo.X, "size") && isZ && z == 0:
+						okE = (bo.Op == token.EQL && g.Side) || (bo.Op == token.NEQ && !g.Side) || (bo.Op == token.LEQ && g.Side) || (bo.Op == token.GTR && !g.Side)
+					case ringFieldLoad(bo.Y, "startProxyID"):
+						if _, isP := bo.X.(*ssa.Parameter); isP {
+							okE = (bo.Op == token.LSS && g.Side) || (bo.Op == token.GEQ && !g.Side)
+						}
+					case isZ && z == 0:
+						if v, isBin := bo.X.(*ssa.BinOp); isBin && v.Op == token.ADD {
+							okE = ((bo.Op == token.LEQ || bo.Op == token.LSS) && g.Side) || ((bo.Op == token.GTR || bo.Op == token.GEQ) && !g.Side)
+						}
 					}
 				}
+				if !okE {
+					okG, desc, side = false, d, g.Side
+				}
 			}
-			res.Check(okG, rule, "AggregateUpTo: an empty result is returned only when nothing is covered", instrPos(c.Prog, ret), "size == 0, watermark < startProxyID or count <= 0", "an empty aggregation is returned under `"+desc+"` (side "+map[bool]string{true: "true", false: "false"}[g.Side]+"), which does not mean that no entry is covered: confirmed entries are withheld and their acknowledgement is never translated")
+			res.Check(okG, rule, "AggregateUpTo: an empty result is returned only when nothing is covered", instrPos(c.Prog, ret), "size == 0, watermark < startProxyID or count <= 0", "an empty aggregation is returned under `"+desc+"` (side "+map[bool]string{true: "true", false: "false"}[side]+"), which does not mean that no entry is covered: confirmed entries are withheld and their acknowledgement is never translated")
 		}
 	}
 	if n == 0 {
